@@ -448,6 +448,16 @@ func (c *channel) trySubmitCommandResult(respCmd *ResponseCommand) bool {
 	return true
 }
 
+// receiverDone indicates if the channel receiver goroutine has already ended.
+func (c *channel) receiverDone() bool {
+	select {
+	case <-c.rcvDone:
+		return true
+	default:
+		return false
+	}
+}
+
 // RcvDone signals when the channel receiver goroutine is done.
 // This usually indicates that the session with the remote node was finished.
 func (c *channel) RcvDone() <-chan struct{} {
